@@ -1176,21 +1176,24 @@ _RT3 = {
     ],
     'C02': [
         M('rt3-newton-no-mask',
-          (NR, 'return np.where(converged, t, np.nan)', 'return t')),
+          (NR, 'return np.where(converged & (t > -1e-10), t, np.nan)',
+           'return t')),
         M('rt3-newton-mask-inverted',
-          (NR, 'return np.where(converged, t, np.nan)',
-           'return np.where(converged, np.nan, t)')),
+          (NR, 'return np.where(converged & (t > -1e-10), t, np.nan)',
+           'return np.where(converged & (t > -1e-10), np.nan, t)')),
         M('rt3-newton-mask-stale-residual',
           (NR, 'converged = np.abs(residual) < self.tol',
            'converged = np.abs(residual) < np.inf')),
-        T('rt3-T-newton-mask-store',
-          (NR, 'return np.where(converged, t, np.nan)',
-           't[~converged] = np.nan\n        return t')),
+        M('rt3-newton-behind-accepted',
+          (NR, 'return np.where(converged & (t > -1e-10), t, np.nan)',
+           'return np.where(converged, t, np.nan)')),
+        M('rt3-newton-unsigned',
+          (NR, 't = np.sum((intersections - position) * ray_directions, '
+               'axis=1)',
+           't = np.linalg.norm(intersections - position, axis=1)')),
         T('rt3-T-newton-mask-gt',
-          (NR, 'converged = np.abs(residual) < self.tol\n'
-               '        return np.where(converged, t, np.nan)',
-           'lost = np.abs(residual) >= self.tol\n'
-           '        return np.where(lost, np.nan, t)')),
+          (NR, 'return np.where(converged & (t > -1e-10), t, np.nan)',
+           'return np.where(converged & (t >= -1e-10), t, np.nan)')),
     ],
 }
 for _p, _l in _RT3.items():
